@@ -37,7 +37,7 @@ def check_closest(ctx, fam, obj_desc, qp, res, on_obj_sqd, samples_sqd, best_sqd
 def fam_lines(ctx, rng):
     d3 = rng.random() < 0.5
     kind = rng.choice(['seg', 'ray'])
-    far = rng.random() < 0.4            # the object somewhere in a site model (coordinates to 1e4), the query a few millimetres .. centimetres off it
+    far = rng.random() < (0.55 if d3 else 0.3)            # the object somewhere in a site model (coordinates to 1e4), the query a few millimetres .. centimetres off it
     ext = 50 if not far else 9000
     if d3:
         L = (Ray3D if kind == 'ray' else LineSegment3D)(P3(G.rpt3(rng, ext)), V3(G.rvec3(rng, 30)))
@@ -401,7 +401,7 @@ def best_interior_point(pts, eps, holes=()):
     return best[1]
 
 
-FAMILIES = [(fam_lines, 80), (fam_seg_seg, 60), (fam_arc, 40), (fam_plane, 25), (fam_polygon, 60), (fam_pole, 40), (fam_pole_face, 25)]
+FAMILIES = [(fam_lines, 130), (fam_seg_seg, 60), (fam_arc, 40), (fam_plane, 25), (fam_polygon, 60), (fam_pole, 40), (fam_pole_face, 25)]
 
 
 def explore(ctx):
